@@ -6,9 +6,11 @@ import (
 	"net/http"
 	"net/http/httptest"
 	"os"
+	"os/signal"
 	"runtime"
 	"strconv"
 	"strings"
+	"syscall"
 	"time"
 
 	"github.com/bluenviron/gohlslib/v2"
@@ -144,6 +146,7 @@ func heapHistory(hc heapCase, rotations int, frameSize int, seed int64) (pts [3]
 func heapProbe(rep *ev.Reporter, tier string, seed int64, stats oracle.Stats) {
 	limitProbe(rep, tier, seed, stats)
 	retentionProbe(rep, tier, seed, stats)
+	faultRetention(rep, tier, seed, stats)
 	rot, frame := 400, 12<<10
 	if tier == "thorough" {
 		rot = 3000
@@ -491,5 +494,95 @@ func retentionProbe(rep *ev.Reporter, tier string, seed int64, stats oracle.Stat
 		chk("listed segments", fm.listed, cm.listed, ff.listed)
 		chk("files", fm.files, cm.files, ff.files)
 		chk("url paths", fm.paths, cm.paths, ff.paths)
+	}
+}
+
+// ---- retention across a disk write fault episode (MPEG-TS, Directory)
+//
+// For a stretch of the history the process's file size limit is a few KB (SIGXFSZ ignored): every
+// flush of a finished segment fails, the Write returns the error and the writer goes on; then the
+// limit is lifted. Files in Directory are counted after every Write: never more than
+// SegmentCount + 2 (the window, the open segment and one being torn down), and none after Close.
+// (The fMP4 variants are left out: their writer panics after a failed part flush, a recorded finding
+// of C08.) Runs alone in the process, like everything in this file.
+func faultRetention(rep *ev.Reporter, tier string, seed int64, stats oracle.Stats) {
+	ref := caseRef{"C18", seed, -2000, tier}
+	dir, err := os.MkdirTemp("", "c18wf")
+	if err != nil {
+		fmt.Println("HARNESS: C18 write-fault history:", err)
+		return
+	}
+	defer os.RemoveAll(dir)
+	tr := &gohlslib.Track{Codec: &codecs.H264{SPS: media.H264SPSVectors[0], PPS: media.H264PPS[0]}, ClockRate: 90000}
+	segCount := 3 + int(seed%3)
+	m := &gohlslib.Muxer{Variant: gohlslib.MuxerVariantMPEGTS, SegmentCount: segCount, SegmentMinDuration: time.Second, Directory: dir, Tracks: []*gohlslib.Track{tr}}
+	if err := m.Start(); err != nil {
+		fmt.Println("HARNESS: C18 write-fault history:", err)
+		return
+	}
+	signal.Ignore(syscall.SIGXFSZ)
+	defer signal.Reset(syscall.SIGXFSZ)
+	var old syscall.Rlimit
+	syscall.Getrlimit(syscall.RLIMIT_FSIZE, &old)
+	ntp := time.Date(2024, 6, 1, 8, 0, 0, 0, time.UTC)
+	episodes := 2
+	if tier == "thorough" {
+		episodes = 10
+	}
+	n, failed, maxFiles := 0, 0, 0
+	write := func() {
+		nalu := make([]byte, 1500)
+		nalu[0] = 0x41
+		au := [][]byte{nalu}
+		if n%25 == 0 {
+			nalu[0] = 0x65
+			au = [][]byte{media.H264SPSVectors[0], media.H264PPS[0], nalu}
+		}
+		func() {
+			defer func() {
+				if pv := recover(); pv != nil {
+					rep.Report("C18/write-fault/writer-panic", fmt.Sprintf("mpegts: write %d panicked during a write-fault episode: %v", n, pv), ref)
+				}
+			}()
+			if e := m.WriteH264(tr, ntp.Add(time.Duration(n)*40*time.Millisecond), int64(n)*3600, au); e != nil {
+				failed++
+			}
+		}()
+		n++
+		if es, err := os.ReadDir(dir); err == nil && len(es) > maxFiles {
+			maxFiles = len(es)
+		}
+	}
+	for e := 0; e < episodes; e++ {
+		for i := 0; i < 25*(segCount+2); i++ { // fault-free: the window fills
+			write()
+		}
+		syscall.Setrlimit(syscall.RLIMIT_FSIZE, &syscall.Rlimit{Cur: 8192, Max: old.Max})
+		for i := 0; i < 25*6; i++ { // six segment periods under the limit
+			write()
+		}
+		syscall.Setrlimit(syscall.RLIMIT_FSIZE, &old)
+	}
+	for i := 0; i < 25*(segCount+3); i++ {
+		write()
+	}
+	es, _ := os.ReadDir(dir)
+	endFiles := len(es)
+	m.Close()
+	left, _ := os.ReadDir(dir)
+	stats["C18.write_fault_histories"]++
+	stats["C18.write_fault_failed_writes"] += failed
+	fmt.Printf("C18 write faults mpegts+disk: %d writes, %d failed, at most %d files in Directory (SegmentCount %d), %d at the end, %d after Close\n", n, failed, maxFiles, segCount, endFiles, len(left))
+	if failed == 0 {
+		fmt.Println("INCONCLUSIVE property=C18 write-fault history: no Write failed under the file size limit")
+		return
+	}
+	if maxFiles > segCount+2 {
+		rep.Report("C18/write-fault/files", fmt.Sprintf("mpegts: up to %d files in Directory during a history with %d failed Writes, SegmentCount is %d", maxFiles, failed, segCount), ref)
+	} else if endFiles > segCount+1 {
+		rep.Report("C18/write-fault/files-at-end", fmt.Sprintf("mpegts: %d files in Directory long after the last failed Write, SegmentCount is %d", endFiles, segCount), ref)
+	}
+	if len(left) > 0 {
+		rep.Report("C18/write-fault/left-after-close", fmt.Sprintf("mpegts: %d files left in Directory after Close (%d Writes had failed on disk write faults)", len(left), failed), ref)
 	}
 }
